@@ -36,6 +36,14 @@ func replayOne(r *ev.Run, path string) {
 		r.EngineError("cannot read replay: " + err.Error())
 		return
 	}
+	if in.Domain == "literal" {
+		res, errText, panicText := evalScript(litGlobals, in.Op.V, nil)
+		fmt.Printf("program:\n%s\nresult=%v error=%q panic=%q\n", in.Op.V, res, errText, panicText)
+		r.Eval(1)
+		r.Outcome("a")
+		r.Outcome("b")
+		return
+	}
 	d := domainByName(in.Domain)
 	if d == nil {
 		r.EngineError("replay: unknown domain " + in.Domain)
